@@ -1,6 +1,8 @@
 (* C12 — building expressions in a context preserves their meaning.
-   (The constructor-level theorems over the Context model are in CtxProof; this file
-   pins the f32 facts every rewrite of context/mod.rs rests on.) *)
+   Part 1: the f32 facts every rewrite of context/mod.rs rests on; part 2: the constructors of
+   the Context model (Ctx.v) keep the arena well-formed and deduplicated, return the same node
+   for the same request, and denote the IEEE operation of their operands up to the sign of
+   zero (exactly when no operand is a constant); import of an export is the identity. *)
 From Coq Require Import List ZArith.
 From FV Require Import F32 Ops F32Sem F32Facts.
 Import ListNotations.
@@ -42,3 +44,229 @@ Print Assumptions C12_identity_elimination.
 Theorem C12_mul_zero_needs_finite : fmul fzero finf = fnan /\ fmul fzero fnan = fnan.
 Proof. exact mul_zero_l_inf_refuted. Qed.
 Print Assumptions C12_mul_zero_needs_finite.
+
+(* ---- part 2: the Context model (proofs in CtxBase / CtxCtors / CtxSem / CtxExport) ---- *)
+From Flocq Require Import IEEE754.BinarySingleNaN.
+From FV Require Import Tape Alloc Flatten CtxEval FlattenLib FlattenPass2 Ctx.
+From FV Require Import CtxBase CtxCtors CtxSem CtxImport CtxImportZ CtxExport CtxProof.
+From Coq Require Import Bool Arith Lia.
+
+Theorem C12_P1_binary :
+  forall (o : oracle) (K : ctx -> nat -> nat -> R),
+       bin_ctor o K ->
+       forall (c : ctx) (a b : nat) (c' : ctx) (n : nat),
+       ctx_inv c ->
+       K c a b = Ok (c', n) ->
+       ctx_inv c' /\ (exists ext : list (cnode f32), c' = c ++ ext) /\ (n < length c')%nat.
+Proof. exact (@P1_binary). Qed.
+Print Assumptions C12_P1_binary.
+
+Theorem C12_P1_binary_err :
+  forall (o : oracle) (K : ctx -> nat -> nat -> R),
+       bin_ctor o K ->
+       forall (c : ctx) (a b e : nat),
+       K c a b = Err e <-> e = 100%nat /\ ~ ((a < length c)%nat /\ (b < length c)%nat).
+Proof. exact (@P1_binary_err). Qed.
+Print Assumptions C12_P1_binary_err.
+
+Theorem C12_P1_unary :
+  forall (o : oracle) (u : uop) (c : ctx) (a : nat) (c' : ctx) (n : nat),
+       u <> UCopy ->
+       ctx_inv c ->
+       op_unary o c a u = Ok (c', n) ->
+       ctx_inv c' /\ (exists ext : list (cnode f32), c' = c ++ ext) /\ (n < length c')%nat.
+Proof. exact (@P1_unary). Qed.
+Print Assumptions C12_P1_unary.
+
+Theorem C12_P1_constant :
+  forall (c : ctx) (v : f32) (c' : ctx) (n : nat),
+       ctx_inv c ->
+       constant c v = Ok (c', n) ->
+       ctx_inv c' /\ (exists ext : list (cnode f32), c' = c ++ ext) /\ (n < length c')%nat.
+Proof. exact (@P1_constant). Qed.
+Print Assumptions C12_P1_constant.
+
+Theorem C12_P1_var :
+  forall (c : ctx) (v : nat) (c' : ctx) (n : nat),
+       ctx_inv c ->
+       var c v = Ok (c', n) ->
+       ctx_inv c' /\ (exists ext : list (cnode f32), c' = c ++ ext) /\ (n < length c')%nat.
+Proof. exact (@P1_var). Qed.
+Print Assumptions C12_P1_var.
+
+Theorem C12_P2_binary :
+  forall (o : oracle) (K : ctx -> nat -> nat -> R),
+       bin_ctor o K ->
+       forall (c : ctx) (a b : nat) (c' : ctx) (n : nat),
+       K c a b = Ok (c', n) -> K c' a b = Ok (c', n).
+Proof. exact (@P2_binary). Qed.
+Print Assumptions C12_P2_binary.
+
+Theorem C12_P2_binary_later :
+  forall (o : oracle) (K : ctx -> nat -> nat -> R),
+       bin_ctor o K ->
+       forall (c : ctx) (a b : nat) (c' : ctx) (n : nat) (ext : list (cnode f32)),
+       K c a b = Ok (c', n) -> K (c' ++ ext) a b = Ok (c' ++ ext, n).
+Proof. exact (@P2_binary_later). Qed.
+Print Assumptions C12_P2_binary_later.
+
+Theorem C12_P2_unary :
+  forall (o : oracle) (u : uop) (c : ctx) (a : nat) (c' : ctx) (n : nat),
+       op_unary o c a u = Ok (c', n) -> op_unary o c' a u = Ok (c', n).
+Proof. exact (@P2_unary). Qed.
+Print Assumptions C12_P2_unary.
+
+Theorem C12_P2_constant :
+  forall (c : ctx) (v : f32) (c' : ctx) (n : nat),
+       constant c v = Ok (c', n) -> constant c' v = Ok (c', n).
+Proof. exact (@P2_constant). Qed.
+Print Assumptions C12_P2_constant.
+
+Theorem C12_run_call_inv :
+  forall (o : oracle) (c : ctx) (k : call) (c' : ctx) (n : nat),
+       ctx_inv c ->
+       call_ok k ->
+       run_call o c k = Ok (c', n) ->
+       ctx_inv c' /\ (exists ext : list (cnode f32), c' = c ++ ext) /\ (n < length c')%nat.
+Proof. exact (@run_call_inv). Qed.
+Print Assumptions C12_run_call_inv.
+
+Theorem C12_run_call_dedup :
+  forall (o : oracle) (c : ctx) (k : call) (c' : ctx) (n : nat),
+       call_ok k -> run_call o c k = Ok (c', n) -> run_call o c' k = Ok (c', n).
+Proof. exact (@run_call_dedup). Qed.
+Print Assumptions C12_run_call_dedup.
+
+Theorem C12_ctx_arena_ok :
+  forall (o : oracle) (c : ctx) (roots : list nat),
+       built_ctx o c -> (forall r : nat, In r roots -> (r < length c)%nat) -> arena_ok c roots.
+Proof. exact (@ctx_arena_ok). Qed.
+Print Assumptions C12_ctx_arena_ok.
+
+Theorem C12_extension_preserves_values :
+  forall (V I : Type) (sem : Sem V I) (c ext : list (cnode I)) (env : nat -> V) (n : nat),
+       arena_wf c -> (n < length c)%nat -> ctx_eval sem (c ++ ext) env n = ctx_eval sem c env n.
+Proof. exact (@extension_preserves_values). Qed.
+Print Assumptions C12_extension_preserves_values.
+
+Theorem C12_constant_sound :
+  forall (o : oracle) (c : list (cnode f32)) (v : f32) (c' : ctx) (n : nat) (env : nat -> f32),
+       arena_wf c ->
+       constant c v = Ok (c', n) ->
+       eqz (ctx_eval (f32_sem o) c' env n) v /\
+       (is_zerob v = false -> ctx_eval (f32_sem o) c' env n = v).
+Proof. exact (@constant_sound). Qed.
+Print Assumptions C12_constant_sound.
+
+Theorem C12_var_sound :
+  forall (o : oracle) (c : list (cnode f32)) (v : nat) (c' : ctx) (n : nat) (env : nat -> f32),
+       arena_wf c -> var c v = Ok (c', n) -> ctx_eval (f32_sem o) c' env n = env v.
+Proof. exact (@var_sound). Qed.
+Print Assumptions C12_var_sound.
+
+Theorem C12_op_unary_sound :
+  forall (o : oracle) (c : list (cnode f32)) (a : nat) (u : uop) (c' : ctx) 
+         (n : nat) (env : nat -> f32),
+       arena_wf c ->
+       op_unary o c a u = Ok (c', n) ->
+       eqz (ctx_eval (f32_sem o) c' env n) (f32_un o u (ctx_eval (f32_sem o) c env a)).
+Proof. exact (@op_unary_sound). Qed.
+Print Assumptions C12_op_unary_sound.
+
+Theorem C12_build_bin_sound_strong :
+  forall (o : oracle) (c : list (cnode f32)) (p : bop) (a b : nat) 
+         (c' : ctx) (n : nat) (env : nat -> f32),
+       arena_wf c ->
+       build_bin o c p a b = Ok (c', n) ->
+       let x := ctx_eval (f32_sem o) c env a in
+       let y := ctx_eval (f32_sem o) c env b in
+       bin_side p x y -> eqz (ctx_eval (f32_sem o) c' env n) (f32_bin o p x y).
+Proof. exact (@build_bin_sound_strong). Qed.
+Print Assumptions C12_build_bin_sound_strong.
+
+Theorem C12_build_bin_sound :
+  forall (o : oracle) (c : ctx) (p : bop) (a b : nat) (c' : ctx) (n : nat),
+       ctx_inv c ->
+       build_bin o c p a b = Ok (c', n) ->
+       forall env : nat -> f32,
+       let x := ctx_eval (f32_sem o) c env a in
+       let y := ctx_eval (f32_sem o) c env b in
+       finite x ->
+       finite y ->
+       finite (f32_bin o p x y) -> eqz (ctx_eval (f32_sem o) c' env n) (f32_bin o p x y).
+Proof. exact (@build_bin_sound). Qed.
+Print Assumptions C12_build_bin_sound.
+
+Theorem C12_build_bin_exact_nonconst :
+  forall (o : oracle) (c : list (cnode f32)) (p : bop) (a b : nat) 
+         (c' : ctx) (n : nat) (env : nat -> f32),
+       arena_wf c ->
+       build_bin o c p a b = Ok (c', n) ->
+       (forall k : f32, get_op c a <> Some (NConst k)) ->
+       (forall k : f32, get_op c b <> Some (NConst k)) ->
+       ctx_eval (f32_sem o) c' env n =
+       f32_bin o p (ctx_eval (f32_sem o) c env a) (ctx_eval (f32_sem o) c env b).
+Proof. exact (@build_bin_exact_nonconst). Qed.
+Print Assumptions C12_build_bin_exact_nonconst.
+
+Theorem C12_c_mul_inf_refuted :
+  forall o : oracle,
+       let c0 := [NInput 0; NConst fzero] in
+       exists (c' : ctx) (n : nat),
+         c_mul o c0 1 0 = Ok (c', n) /\
+         (let env := fun _ : nat => finf in
+          ctx_eval (f32_sem o) c' env n = fzero /\
+          fmul (ctx_eval (f32_sem o) c0 env 1) (ctx_eval (f32_sem o) c0 env 0) = fnan).
+Proof. exact (@c_mul_inf_refuted). Qed.
+Print Assumptions C12_c_mul_inf_refuted.
+
+Theorem C12_c_div_zero_refuted :
+  forall o : oracle,
+       let c0 := [NInput 0; NConst fzero] in
+       exists (c' : ctx) (n : nat),
+         c_div o c0 1 0 = Ok (c', n) /\
+         (let env := fun _ : nat => fzero in
+          ctx_eval (f32_sem o) c' env n = fzero /\
+          fdiv (ctx_eval (f32_sem o) c0 env 1) (ctx_eval (f32_sem o) c0 env 0) = fnan).
+Proof. exact (@c_div_zero_refuted). Qed.
+Print Assumptions C12_c_div_zero_refuted.
+
+Theorem C12_ctx_zero_sign_observable :
+  forall o : oracle,
+       let c0 := [NInput 0] in
+       exists (c1 : ctx) (k : nat) (c2 : ctx) (n : nat),
+         constant c0 fzero = Ok (c1, k) /\
+         c_sub o c1 k 0 = Ok (c2, n) /\
+         nth_error c2 n = Some (NUnary UNeg 0) /\
+         (let env := fun _ : nat => fzero in
+          ctx_eval (f32_sem o) c2 env n = fnzero /\
+          fsub (ctx_eval (f32_sem o) c1 env k) (ctx_eval (f32_sem o) c1 env 0) = fzero /\
+          finite (ctx_eval (f32_sem o) c2 env n) /\
+          finite (fsub (ctx_eval (f32_sem o) c1 env k) (ctx_eval (f32_sem o) c1 env 0)) /\
+          eqz (ctx_eval (f32_sem o) c2 env n)
+            (fsub (ctx_eval (f32_sem o) c1 env k) (ctx_eval (f32_sem o) c1 env 0)) /\
+          ctx_eval (f32_sem o) c2 env n <>
+          fsub (ctx_eval (f32_sem o) c1 env k) (ctx_eval (f32_sem o) c1 env 0)).
+Proof. exact (@ctx_zero_sign_observable). Qed.
+Print Assumptions C12_ctx_zero_sign_observable.
+
+Theorem C12_import_export :
+  forall (o : oracle) (c : ctx) (x y z : nat),
+       ctx_canon c ->
+       axis_ok c x 0 ->
+       axis_ok c y 1 ->
+       axis_ok c z 2 ->
+       forall fuel n : nat,
+       (n < length c)%nat ->
+       (n < fuel)%nat -> import_rec o fuel (export c) c (x, y, z) n = Ok (c, n).
+Proof. exact (@import_export). Qed.
+Print Assumptions C12_import_export.
+
+Theorem C12_import_export_top :
+  forall (o : oracle) (c : ctx) (x y z n : nat),
+       ctx_canon c ->
+       nth_error c x = Some (NInput 0) ->
+       nth_error c y = Some (NInput 1) ->
+       nth_error c z = Some (NInput 2) -> (n < length c)%nat -> import o (export c) n c = Ok (c, n).
+Proof. exact (@import_export_top). Qed.
+Print Assumptions C12_import_export_top.
